@@ -368,3 +368,35 @@ def headroom(rep, prog, rule):
         else:
             rep.unk(rule, key, f.loc, "precision up to %d leaves %d guard bit(s): overflow depends "
                     "on the negative lobes of the filter" % (hi, acc_bits - 1 - data_bits - hi))
+
+
+def precision_reach(rep, prog, rule):
+    rep.rule(rule, "NormalizerNN::new may raise the precision up to the head-room of the accumulator "
+             "(acc_bits - data_bits - 3: 21 for Normalizer16, 45 for Normalizer32); the weights of a "
+             "window of n taps are about 1/n, so with the precision capped at P every coefficient "
+             "keeps only P - log2(n) significant bits and the windows sum to 1 only within n / 2^(P+1): "
+             "a cap at or below the width of the coefficient type (15 / 31 bits) removes the "
+             "adaptation to small weights altogether (error of whole units from a few hundred taps "
+             "on) and is a violation; a cap between that and the head-room is undecided")
+    for which, data_bits, acc_bits, coef_bits in (("Normalizer16", 8, 32, 15), ("Normalizer32", 16, 64, 31)):
+        try:
+            iv, f = precision_interval(prog, which)
+        except Exception:
+            iv, f = None, None
+        key = "%s|precision-reach" % which
+        if iv is None:
+            rep.unk(rule, key, "-", "interval of %s::precision not computable" % which)
+            continue
+        rep.touch(f)
+        hi, room = iv[1], acc_bits - data_bits - 3
+        if hi >= room:
+            rep.ok(rule, key, f.loc, "precision can reach %d = the head-room of the %d-bit accumulator"
+                   % (hi, acc_bits))
+        elif hi <= coef_bits:
+            rep.bad(rule, key + "|capped", f.loc,
+                    "%s::new never chooses a precision above %d although the accumulator leaves room for "
+                    "%d: for a reduction by a factor n the weights are about 1/n and are rounded to "
+                    "multiples of 2^-%d, so a flat area changes by up to 255 * n / 2^%d units (whole "
+                    "units from n of a few hundred on)" % (which, hi, room, hi, hi + 1))
+        else:
+            rep.unk(rule, key, f.loc, "precision capped at %d, below the head-room %d" % (hi, room))
